@@ -22,6 +22,7 @@ EVIDENCE = os.path.join(VERIF, "evidence")
 REPLAYS = os.path.join(VERIF, "replays")
 KNOWN = os.path.join(VERIF, "known_findings.json")
 ALLOWED_AXIOMS = {"propext", "Classical.choice", "Quot.sound"}
+BV_DECIDE_OK = {"C07"}  # properties whose theorems may depend on bv_decide natives (stated in DESIGN.md §3)
 FORBIDDEN = re.compile(
     r"\b(sorry|admit|native_decide|implemented_by|unsafe)\b|^\s*axiom\s|maxHeartbeats\s+0\b"
 )
@@ -158,6 +159,8 @@ def lean_files_of(modules):
 
 
 class Peer:
+    """line-protocol child process; replies are read with a per-request timeout"""
+
     def __init__(self, argv, cwd=None):
         os.makedirs(WORK, exist_ok=True)
         self.p = subprocess.Popen(
@@ -166,25 +169,47 @@ class Peer:
             stdin=subprocess.PIPE,
             stdout=subprocess.PIPE,
             stderr=subprocess.DEVNULL,
-            text=True,
-            bufsize=1,
             env=ENV,
         )
         self.argv = argv
+        self.buf = b""
+        self.timed_out = None
 
-    def ask(self, line):
-        """send one request, return the reply lines (without the END marker); None if the peer died"""
+    def _readline(self, deadline):
+        import select
+
+        fd = self.p.stdout.fileno()
+        while b"\n" not in self.buf:
+            r, _, _ = select.select([fd], [], [], max(0.0, deadline - time.time()))
+            if not r:
+                return None
+            chunk = os.read(fd, 1 << 16)
+            if not chunk:
+                return b""
+            self.buf += chunk
+        line, self.buf = self.buf.split(b"\n", 1)
+        return line + b"\n"
+
+    def ask(self, line, timeout=120):
+        """send one request, return the reply lines (without the END marker); None if the peer died
+        or did not answer within `timeout` seconds (it is killed then; the caller restarts it)"""
         try:
-            self.p.stdin.write(line + "\n")
+            self.p.stdin.write((line + "\n").encode())
             self.p.stdin.flush()
-        except BrokenPipeError:
+        except (BrokenPipeError, ValueError):
             return None
         out = []
+        deadline = time.time() + timeout
         while True:
-            l = self.p.stdout.readline()
-            if l == "":
+            l = self._readline(deadline)
+            if l is None:
+                log("peer timeout on request: %s" % line[:200])
+                self.timed_out = line
+                self.p.kill()
                 return None
-            l = l.rstrip("\n")
+            if l == b"":
+                return None
+            l = l.decode("utf-8", errors="replace").rstrip("\n")
             if l == "END":
                 return out
             out.append(l)
@@ -412,6 +437,14 @@ def prove(chk, prop_id, modules, theorems, role="theorem"):
             allok = False
             continue
         extra = [a for a in ax if a not in ALLOWED_AXIOMS]
+        natives = [a for a in extra if "_native.bv_decide.ax" in a]
+        if natives and prop_id.split("_")[0] in BV_DECIDE_OK:
+            # declared use of bv_decide (AArch64 halfword identities): each call adds one native axiom
+            chk.notes.setdefault("bv_decide_axioms", [])
+            for a in natives:
+                if a not in chk.notes["bv_decide_axioms"]:
+                    chk.notes["bv_decide_axioms"].append(a)
+            extra = [a for a in extra if a not in natives]
         if extra:
             chk.obligation(t, role, False, "axioms: %s" % extra)
             failing.append(t)
